@@ -31,7 +31,7 @@ CLAIMED = {
  "C08": dict(text=GEN + "Partial: year pillar index (y-4) mod 60; month pillars obey the Five-Tigers rule on every route that builds them by index (lunar month, first month of a sexagenary year, sexagenary month stepping incl. the year carry), all years, engine B. the day view switches the year pillar on the Lichun day and the month pillar on each Jie day (given the date's term). Not covered: the instant-level view.",
              note="Assumes: object-model axioms A-index, A-pillar, A-name, A-format; struct invariants (index in year 0..12).",
              technique=ENGB),
- "C09": dict(text=GEN + "Partial: hour branch, Five-Rats stem and the 23:00 roll-over on the lunar-hour route for all 60 day pillars x 24 hours (engine B); the instant-level view reports the next day's pillar from 23:00 with the matching hour pillar and switches year/month pillars at the term instants (engine B); the eight characters are exactly the view's four pillars for both shipped providers, and EightChar's getters return them (engine B); refusal of invalid clock fields (Kani). Not covered: the inverse search.",
+ "C09": dict(text=GEN + "Partial: hour branch, Five-Rats stem and the 23:00 roll-over on the lunar-hour route for all 60 day pillars x 24 hours (engine B); the instant-level view reports the next day's pillar from 23:00 with the matching hour pillar and switches year/month pillars at the term instants (engine B); the eight characters are exactly the view's four pillars for both shipped providers, and EightChar's getters return them (engine B); the inverse search visits every candidate year of the range and tries an instant in the hour pillar's double hour on every candidate day of the range (engine B, cycle loop unrolled; two genuine defects found here and fixed); refusal of invalid clock fields (Kani). Not covered: double hours containing a Jie instant, ranges wider than 130 years.",
              note="Assumes: the day pillar is an arbitrary pillar here (its value is C07 07.c); object-model axioms A-index, A-pillar, A-name, A-format.",
              technique=ENGB + " + " + BMC),
  "C17": dict(text=GEN + "Partial: six-day star incl. leap months, moon phase, minor Ren, month nine star, 28 mansions (+1 per day, luminary = weekday), day officer, Yellow/Black-path spirits for days and hours — engine B over the real index arithmetic for all inputs. flying nine star of the year (three 360-year windows), of the hour, and of the day (turning at the Jiazi days nearest the solstices; for the dates before a civil year's first turning day the check reports a known finding: the code counts back from that day and the star jumps on January 1 after a 240-day run). Not covered: year nine star outside the windows.",
